@@ -301,12 +301,13 @@ class World:
             self.count('gc_with_garbled_snapshot_read')
         return failed
 
-    async def snapshot(self, user, fileset, note=None, capture=True, fresh=False, repo=None, shuffle_args=None):
+    async def snapshot(self, user, fileset, note=None, capture=True, fresh=False, repo=None, shuffle_args=None,
+                       rate_limit=None, concurrent=None):
         """repo: use this (already unlocked) Repository object instead of the user's own.
         shuffle_args: a Random -> the files are passed as individual path arguments in a shuffled order."""
         truth = self.write_fileset(user, fileset)
         if repo is None:
-            repo = await self.repo(user, fresh=fresh)
+            repo = await self.repo(user, fresh=fresh or concurrent is not None, concurrent=concurrent)
         before_calls = len(self.store.log)
         args = [Path(self.srcdir(user))]
         if shuffle_args is not None:
@@ -314,9 +315,9 @@ class World:
             shuffle_args.shuffle(args)
         if capture:
             with rep.capture():
-                res = await repo.snapshot(paths=args, note=note)
+                res = await repo.snapshot(paths=args, note=note, rate_limit=rate_limit)
         else:
-            res = await repo.snapshot(paths=args, note=note)
+            res = await repo.snapshot(paths=args, note=note, rate_limit=rate_limit)
         rec = SnapRecord(res.name, res.location, user, truth, res.data['utc_timestamp'], note, list(res.chunks))
         self.snaps[res.name] = rec
         self.ops_log.append(('snapshot', user, res.name[:10], len(fileset)))
@@ -614,7 +615,10 @@ async def run_history(world, nops, mix, audits, r, restore_every=4, sequential_r
             # a shared-key user only reuses chunks; paths differ per user dir, content is the same
             before = len(world.store.log)
             # unchanged data, possibly handed over as individual arguments in another order
-            rec = await world.snapshot(u, last_fileset[u0][0], shuffle_args=r if r.random() < 0.5 else None)
+            # ... and with other transfer options than the first time (they must not influence what is stored)
+            rec = await world.snapshot(u, last_fileset[u0][0], shuffle_args=r if r.random() < 0.5 else None,
+                                       rate_limit=r.choice([None, None, 20_000, 400_000]),
+                                       concurrent=r.choice([None, 1, 2, 5]))
             events = world.store.log[before:]
             payload = [e for e in events if e['op'] in ('upload_stream',) or
                        (e['op'] == 'upload' and e['name'].startswith('data/'))]
